@@ -178,6 +178,7 @@ static void run() {
       else if (ListOffsetArrayU32* r = dynamic_cast<ListOffsetArrayU32*>(x.get())) stack.push_back(r->toRegularArray());
       else if (ListArray32* r = dynamic_cast<ListArray32*>(x.get())) stack.push_back(r->toRegularArray());
       else if (ListArrayU32* r = dynamic_cast<ListArrayU32*>(x.get())) stack.push_back(r->toRegularArray());
+      else if (NumpyArray* r = dynamic_cast<NumpyArray*>(x.get())) stack.push_back(r->toRegularArray());
       else throw std::runtime_error("akrun: toregular on a non-list node"); }
     else if (c == "project") { ContentPtr x = pop();
       if (IndexedOptionArray64* r = dynamic_cast<IndexedOptionArray64*>(x.get())) stack.push_back(r->project());
